@@ -82,13 +82,13 @@ func (c *NoiseGrpcConn) Read(b []byte) (n int, err error) {
 	c.nextMsgMtx.Lock()
 	defer c.nextMsgMtx.Unlock()
 
-	// The last read was incomplete, return the few bytes that didn't fit.
+	// The last read was incomplete, return the bytes that didn't fit, or as
+	// many of them as fit this time.
 	if len(c.nextMsg) > 0 {
-		msgLen := len(c.nextMsg)
-		copy(b, c.nextMsg)
+		n := copy(b, c.nextMsg)
+		c.nextMsg = c.nextMsg[n:]
 
-		c.nextMsg = nil
-		return msgLen, nil
+		return n, nil
 	}
 
 	requestBytes, err := c.noise.ReadMessage(c.ProxyConn)
@@ -96,21 +96,22 @@ func (c *NoiseGrpcConn) Read(b []byte) (n int, err error) {
 		return 0, fmt.Errorf("error decrypting payload: %v", err)
 	}
 
-	// Do we need to read this message in two parts? We cannot give the
+	// Do we need to read this message in several parts? We cannot give the
 	// gRPC layer above us more than the default read buffer size of 32k
-	// bytes at a time.
-	if len(requestBytes) > defaultGrpcWriteBufSize {
-		nextMsgLen := len(requestBytes) - defaultGrpcWriteBufSize
-		c.nextMsg = make([]byte, nextMsgLen)
-
-		copy(c.nextMsg[0:nextMsgLen], requestBytes[defaultGrpcWriteBufSize:])
-
-		copy(b, requestBytes[0:defaultGrpcWriteBufSize])
-		return defaultGrpcWriteBufSize, nil
+	// bytes at a time, and never more than fits into the buffer it passed.
+	// Whatever does not fit is kept for the next read.
+	readLen := len(requestBytes)
+	if readLen > defaultGrpcWriteBufSize {
+		readLen = defaultGrpcWriteBufSize
 	}
 
-	copy(b, requestBytes)
-	return len(requestBytes), nil
+	n = copy(b, requestBytes[:readLen])
+	if n < len(requestBytes) {
+		c.nextMsg = make([]byte, len(requestBytes)-n)
+		copy(c.nextMsg, requestBytes[n:])
+	}
+
+	return n, nil
 }
 
 // Write encrypts the given application level payload and sends it as a data
